@@ -111,7 +111,7 @@ fn agrees(arch: Arch, eff: &Eff, text: &str) -> bool {
         (Arch::X64, Eff::AddSp(n)) => t.strip_prefix("addq ").and_then(|r| r.strip_suffix(", %rsp")).and_then(num) == Some(*n as i64),
         (Arch::X64, Eff::ClobberFp(_)) => t.starts_with("movq ") && t.ends_with(", %rbp") && !t.contains("%rsp"),
         (Arch::X64, Eff::Call) => t.starts_with("callq"),
-        (Arch::X64, Eff::Ret) => t == "retq",
+        (Arch::X64, Eff::Ret) => t == "retq" || t.starts_with("jmp"),
         (Arch::X64, Eff::None) => !touches(&["%rsp", "%rbp", "%esp", "%ebp", "push", "pop", "call", "ret", "jmp", "leave", "enter"]),
         (Arch::A64, Eff::StpFpLrPre(n)) => t == format!("stp x29, x30, [sp, #-{n}]!"),
         (Arch::A64, Eff::StpFpLrOff(k)) => t == format!("stp x29, x30, [sp, #{k}]") || (*k == 0 && t == "stp x29, x30, [sp]"),
@@ -124,7 +124,7 @@ fn agrees(arch: Arch, eff: &Eff, text: &str) -> bool {
         (Arch::A64, Eff::Sign) => t == "paciasp" || t == "pacibsp",
         (Arch::A64, Eff::Auth) => t == "autiasp" || t == "autibsp",
         (Arch::A64, Eff::Call) => t.starts_with("bl "),
-        (Arch::A64, Eff::Ret) => t == "ret" || t == "retab" || t == "retaa",
+        (Arch::A64, Eff::Ret) => t == "ret" || t == "retab" || t == "retaa" || t.starts_with("b ") || t.starts_with("br "),
         (Arch::A64, Eff::None) => !touches(&["sp", "x29", "x30", "w29", "w30", "ret", "bl", "br ", "blr", "pac", "aut"]) && !t.starts_with("b "),
         _ => false,
     }
